@@ -180,6 +180,80 @@ def regrid(x, layout):
     return x
 
 
+def snapshot(watched):
+    """Bit-exact encoding of argument objects: container kind, element type, shape and every element as a string
+    (floats in C99 hexadecimal notation, which also tells -0.0 from 0.0).  A container of containers / arrays lists
+    descriptors of its items and is followed by one entry per item.  Always the same record structure, so that two
+    snapshots can be compared for equality by TLC whatever happened to the objects."""
+    def item(v):
+        if isinstance(v, (bool, np.bool_)):
+            return str(bool(v))
+        if isinstance(v, (int, np.integer)):
+            return str(int(v))
+        if isinstance(v, (float, np.floating)):
+            return float(v).hex()
+        if isinstance(v, np.ndarray):
+            return 'ndarray(%s)%s' % (v.dtype, list(v.shape))
+        if isinstance(v, (list, tuple)):
+            return '%s[%d]' % (type(v).__name__, len(v))
+        return repr(v)
+    out = []
+    for name, o in watched:
+        if isinstance(o, np.ndarray):
+            out.append({'name': name, 'kind': 'ndarray', 'dtype': str(o.dtype), 'sh': [int(n) for n in o.shape],
+                        'v': [item(x) for x in o.ravel().tolist()]})
+        elif isinstance(o, (list, tuple)):
+            out.append({'name': name, 'kind': type(o).__name__, 'dtype': ','.join(sorted(set(type(x).__name__ for x in o))),
+                        'sh': [len(o)], 'v': [item(x) for x in o]})
+            out.extend(snapshot([('%s[%d]' % (name, k), x) for k, x in enumerate(o) if isinstance(x, (list, tuple, np.ndarray))]))
+        else:
+            out.append({'name': name, 'kind': 'scalar', 'dtype': type(o).__name__, 'sh': [], 'v': [item(o)]})
+    return out
+
+
+def _container(values, form):
+    return tuple(values) if form == 'tuple' else np.array(values) if form == 'array' else list(values)
+
+
+def run_reused(op, inp, phi, xxs):
+    """The 'out' part of a record of the reuse block: the argument objects (density, grid container and grids,
+    admix_props / Fs / ploidys containers) are built ONCE from the values the caller wrote, the function is called for
+    the sample sizes in.prior[0], in.prior[1], ... and finally in.ns with these same objects (the sample-size container is
+    the same object as long as the sizes stay the same); the record carries the result of the last call and bit-exact
+    encodings of the argument objects as written / as they are after the last call."""
+    from dadi import Spectrum
+    form = inp.get('argform')      # containers: lists (default) | tuples | ndarrays (grid container and admix_props: lists)
+    phi_obj = relayout(phi, inp.get('layout'))
+    grids = tuple(xxs) if form == 'tuple' else list(xxs)
+    kw = {'mask_corners': inp['mc']}
+    watched = [('phi', phi_obj), ('xxs', grids)]
+    if inp['admix']:
+        rows = [[float(common.frac(v)) for v in row] for row in inp['admix']]
+        kw['admix_props'] = tuple(tuple(r) for r in rows) if form == 'tuple' else rows
+        watched.append(('admix_props', kw['admix_props']))
+    if inp['het']:
+        kw['het_ascertained'] = HET[inp['het']]
+    extra = []
+    if op == 'from_phi_inbreeding':
+        extra = [_container([float(common.frac(v)) for v in inp['Fs']], form), _container(list(inp['ploidys']), form)]
+        watched += [('Fs', extra[0]), ('ploidys', extra[1])]
+        fn = Spectrum.from_phi_inbreeding
+    else:
+        fn = Spectrum.from_phi
+        if inp['force']:
+            kw['force_direct'] = True
+    before = snapshot(watched)
+    prev, ns_obj, ns_before, out = None, None, None, None
+    for sizes in [list(z) for z in inp.get('prior', [])] + [list(inp['ns'])]:
+        if sizes != prev:
+            ns_obj = _container(sizes, form)
+            ns_before = snapshot([('ns', ns_obj)])
+        prev = sizes
+        out = observe(lambda: fn(phi_obj, ns_obj, grids, *extra, **kw))
+    out['args'] = {'before': before + ns_before, 'after': snapshot(watched + [('ns', ns_obj)])}
+    return out
+
+
 def from_record(inp):
     """Rebuild the numpy inputs from a record (used by --replay)."""
     sh = inp['phi']['sh']
@@ -470,6 +544,7 @@ def records(ctx):
         add('inb_limit', {'phi': enc_phi(phi), 'grids': [rats(x) for x in xxs], 'ns': ns, 'ploidys': pl, 'F1': rat(F1), 'F2': rat(F2)},
             limit(), 'Spectrum.from_phi_inbreeding[F->0]', 5)
     boundary_records(ctx, add, base_in)
+    reuse_records(ctx, add, base_in)
     return balance(recs)
 
 
@@ -665,6 +740,63 @@ def boundary_records(ctx, add, base_in):
             'Spectrum.from_phi[inbreeding]+marginalize', 60)
 
 
+REUSED = 'arguments reused'
+
+
+def reuse_records(ctx, add, base_in):
+    """State / aliasing (deterministic, both tiers): sampling is a function of the VALUES of its arguments.  For every
+    sampling path (analytic 1-5 D, force_direct 1-5 D, het_ascertained for every population 1-4 D, admix_props 2-4 D with
+    force_direct on and off, inbreeding 1-3 D with and without ascertainment, the F = 0 shortcut) ONE density object, one
+    grid container and one set of option containers is used for three calls in a row: sample sizes ns, ns again, then
+    different sizes ms.  Every call is a record judged by the ordinary clauses against the density AS THE CALLER WROTE
+    IT, and carries bit-exact encodings of all argument objects before the first and after this call (clause
+    ArgumentsUnchangedBySampling[<argument>])."""
+    rng = random.Random(ctx.seed + 1505)
+    turn = itertools.count()
+
+    def series(path, ns, ms, lens, het=0, admix=(), force=False, inb=None, kind='default', cost=30, tag=None):
+        P = len(ns)
+        k = next(turn)
+        g = {}
+        xxs = [g.setdefault(L, make_grid(rng, L, kind if L > 2 else 'uniform', '')) for L in lens]   # equal lengths: one grid OBJECT
+        phi = make_phi(rng, [len(x) for x in xxs], xxs, ('uniform', 'smooth', 'wide', 'neutral')[k % 4])
+        op = 'from_phi_inbreeding' if inb else 'from_phi'
+        site = tag or ('Spectrum.from_phi_inbreeding[%dD,%s]' % (P, REUSED) if inb else site_of(P, path + ',' + REUSED))
+        prior = []
+        for nth, sizes in enumerate((ns, ns, ms), 1):
+            inp = base_in(phi, sizes, xxs, mc=bool((k + nth) % 2), admix=admix, het=het, force=force)
+            if inb:
+                inp.update({'Fs': rats(inb[0]), 'ploidys': list(inb[1])})
+            inp.update({'nth': nth, 'prior': [list(z) for z in prior]})
+            for key, val in (('argform', (None, 'tuple', 'array')[k % 3]), ('layout', (None, 'F', None, 'slice', 'T')[k % 5])):
+                if val:
+                    inp[key] = val
+            add(op, inp, run_reused(op, inp, phi, xxs), site, cost * (1 if nth < 3 else 0.5))
+            prior.append(sizes)
+    NS = {1: ([5], [3]), 2: ([3, 2], [2, 4]), 3: ([2, 1, 2], [1, 2, 1]), 4: ([1, 2, 1, 2], [2, 1, 1, 1]), 5: ([1, 1, 2, 1, 2], [2, 1, 1, 1, 1])}
+    LEN = {1: [6], 2: [4, 4], 3: [3, 3, 4], 4: [3, 3, 2, 3], 5: [3, 3, 2, 3, 3]}
+    COST = {1: 20, 2: 30, 3: 40, 4: 100, 5: 250}
+    for P in (1, 2, 3, 4, 5):
+        series('analytic', NS[P][0], NS[P][1], LEN[P], cost=COST[P])
+        # force_direct (five populations: no direct rule exists, a refusal is accepted - the arguments still stay as they were)
+        series('direct', NS[P][0], NS[P][1], LEN[P] if P < 5 else [2] * 5, force=True, cost=COST[P] if P < 5 else 1)
+    series('analytic', [1, 2, 1, 1, 2], [1, 1, 1, 1, 3], [4, 4, 2, 2, 3], kind='uniform', cost=300)     # 5-D, the last axis the longest but one
+    for P in (1, 2, 3, 4):
+        for het in range(1, min(P, 3) + 1):       # every ascertainment population; force_direct on and off
+            series('het', NS[P][0], NS[P][1], LEN[P][::-1], het=het, force=bool((P + het) % 2), cost=COST[P])
+    for P in (2, 3, 4):
+        for force in (False, True):
+            A = make_admix(rng, P, 'dyadic' if force else 'float')
+            series('admix', [2, 1, 2, 1][:P], [1, 2, 1, 2][:P], [3, 4, 3, 2][:P] if force else [3] * P, admix=A, force=force, cost=COST[P] * 2)
+    for P in (1, 2, 3):
+        pl = [2, 3, 2][:P]
+        for het in (0, P):
+            Fs = [rng.choice([0.1, 0.25, 0.5, 0.7]) for _ in range(P)]
+            series('inbreeding', [p * (2 if a == 0 else 1) for a, p in enumerate(pl)], [p * (1 if a == 0 else 2) for a, p in enumerate(pl)],
+                   LEN[P], het=het, inb=(Fs, pl), cost=COST[P] * 2)
+    series('inbreeding', [4, 2], [2, 4], [4, 3], inb=([0.0, 0.0], [2, 2]), tag='Spectrum.from_phi_inbreeding[F=0,%s]' % REUSED)
+
+
 def balance(recs, bins=8):
     """Order the records so that the pipeline's contiguous batches carry similar estimated work."""
     order = sorted(range(len(recs)), key=lambda j: -float(recs[j]['_cost']))
@@ -688,13 +820,37 @@ def nontrivial(r):
         return (r['op'], r['site'], 'raised')
     perturbed = any(g[0] != '0' or g[-1] != '1' for g in i['grids'])
     return (r['op'], r['site'], tuple(i['ns']), tuple(i['phi']['sh']), i['het'], bool(i['admix']), perturbed,
-            tuple(i.get('ploidys', ())) if r['op'] == 'from_phi_inbreeding' else ())
+            tuple(i.get('ploidys', ())) if r['op'] == 'from_phi_inbreeding' else (), i.get('nth'))
+
+
+_mut_turn = itertools.count()
+
+
+def mutate_args(rec):
+    import math
+    cand = [e for e in rec['out']['args']['after'] if e['v']]
+    t = next(_mut_turn)
+    e = cand[t % len(cand)]
+    j = t % len(e['v'])
+    try:
+        e['v'][j] = str(int(e['v'][j]) - 1)
+    except ValueError:
+        try:
+            e['v'][j] = math.nextafter(float.fromhex(e['v'][j]), math.inf).hex()
+        except ValueError:
+            e['v'][j] = e['v'][j] + '*'          # an item descriptor of a container
+    return rec
 
 
 def mutate(rec):
     """Corrupt one observed value by a relative 1e-6 (far above the tolerance, far below anything a plot would show)."""
     from fractions import Fraction
     out = rec['out']
+    if 'args' in out:
+        # reuse block: the state clause is demonstrated on the cheapest record of every series (one element of one
+        # argument differs after the call by one unit in the last place / by 1); the value clauses of the same
+        # operations are demonstrated on the records of the other blocks
+        return mutate_args(rec) if rec['in']['nth'] == 3 else None
     if 'raised' in out:
         return None
     bump = Fraction(1000001, 1000000)
@@ -732,10 +888,33 @@ def mutate(rec):
     return rec
 
 
+def what_of(rec, clause):
+    """Description only (the verdict is TLC's)."""
+    i = rec['in']
+    txt = 'record %s (%s): clause %s violated' % (rec['id'], rec.get('site', rec['op']), clause)
+    if 'nth' not in i:
+        return txt
+    calls = ', then '.join('ns=%s' % z for z in list(i['prior']) + [i['ns']])
+    txt += '; call no. %d on the SAME density / grid / option objects (%s; density shape %s%s%s), judged against the density as the caller wrote it' % (
+        i['nth'], calls, i['phi']['sh'], ', containers: %s' % i['argform'] if 'argform' in i else '', ', layout %s' % i['layout'] if 'layout' in i else '')
+    if clause.startswith('ArgumentsUnchangedBySampling'):
+        a = rec['out'].get('args', {})
+        for b, c in zip(a.get('before', []), a.get('after', [])):
+            if b != c:
+                d = [k for k in range(min(len(b['v']), len(c['v']))) if b['v'][k] != c['v'][k]]
+                txt += '; %s %s(%s) %s' % (b['name'], b['kind'], b['dtype'],
+                                           '%d of %d elements changed, e.g. [%d] was %s, is %s' % (len(d), len(b['v']), d[0], float.fromhex(b['v'][d[0]]) if 'x' in b['v'][d[0]] else b['v'][d[0]],
+                                                                                               float.fromhex(c['v'][d[0]]) if 'x' in c['v'][d[0]] else c['v'][d[0]])
+                                           if d else 'type / shape changed')
+    return txt
+
+
 def rerun(rec):
     """Re-execute a replayed from_phi / from_phi_inbreeding record on the current tree."""
     inp = rec['in']
     phi, xxs = from_record(inp)
+    if 'nth' in inp:
+        return dict(rec, out=run_reused(rec['op'], inp, phi, xxs))
     if rec['op'] == 'from_phi':
         rec = dict(rec, out=observe(lambda: call_from_phi(inp, phi, xxs)))
     elif rec['op'] == 'from_phi_inbreeding':
@@ -751,12 +930,15 @@ def run(ctx):
         recs = records(ctx)
     return common.pipeline(
         ctx, [('SamplingMC', 'SamplingMC_%s.cfg' % ctx.tier)], 'Trace_Sampling', recs,
-        nontrivial_of=nontrivial, mutator=mutate, timeout=3000,
+        nontrivial_of=nontrivial, mutator=mutate, what_of=what_of, timeout=3000,
         rule='from_phi / from_phi_inbreeding: random non-negative densities (uniform, sparse, wide-range, 1/x-like, smooth) in 1-5 D on '
              'uniform / default (exponential) / other exponential / random grids, end points exact or moved by ~1e-16; distinct by '
              '(operation, path and dimension, sample sizes, grid shape, ascertainment, admixture, perturbed grid, ploidies); '
              'BetaBinomConvolution: whole rows, distinct by (individuals, ploidy, alpha, beta); plus linearity, project/marginalize-after-sample '
-             'and analytic-vs-direct refinement records',
+             'and analytic-vs-direct refinement records; reuse block (sites "...,arguments reused"): every path (analytic / force_direct 1-5 D, '
+             'het_ascertained per population 1-4 D, admix_props 2-4 D, inbreeding 1-3 D, F = 0) called three times on ONE density / grid / option '
+             'object set (ns, ns again, other sizes), each call judged against the density as written plus bit-exact before / after encodings of '
+             'all argument objects (clause ArgumentsUnchangedBySampling[argument])',
         assumptions=['BigInteger rational arithmetic of the Rat and Sampling overrides (self-tested against the TLA+ definitions)',
                      'tolerance 1e-10 (inbreeding path, evaluated through lgamma/exp: 1e-9) relative to the largest exact entry of the output',
                      'grids whose end points overshoot [0,1] by ~1e-16 denote the grid with the end points at 0 and 1',
